@@ -43,6 +43,9 @@ fn in_domain(s: &EnumSpec) -> bool {
     if s.const_into_str && s.variants.iter().any(|v| v.transparent) {
         return false;
     }
+    if s.use_phf && (s.variants.iter().any(|v| !v.default && !v.kind.is_unit()) || !s.generics.is_empty()) {
+        return false;
+    }
     for v in &s.variants {
         if (v.default || v.transparent) && v.kind.nfields() != 1 {
             return false;
@@ -180,6 +183,12 @@ fn alphabet(n: usize, full: bool) -> Vec<Dev> {
     }));
     d.push(dev("prefix=\"p/\"", &["prefix"], |s| {
         s.prefix = Some("p/".into());
+        true
+    }));
+    // the phf code path re-exports phf through the configured strum path (configurations `renamed` and `shadowed`;
+    // phf itself needs std, so the program is left out of the no_std configuration)
+    d.push(dev("use_phf", &["phf"], |s| {
+        s.use_phf = true;
         true
     }));
     d.push(dev("parse_err_ty/fn", &["perr"], |s| {
@@ -332,8 +341,10 @@ pub fn render(p: &C19Program, cfg: &str, idx: usize) -> String {
     let derives: Vec<String> = admissible(&spec).iter().map(|d| format!("{}::{}", strum, d)).collect();
     let mut all: Vec<String> = derives;
     let fieldless = spec.variants.iter().all(|v| v.kind.is_unit());
-    if fieldless && spec.generics.is_empty() {
-        all.push("Clone".into());
+    if (fieldless && spec.generics.is_empty()) || spec.use_phf {
+        if !all.iter().any(|d| d == "Clone") {
+            all.push("Clone".into());
+        }
     }
     let dref: Vec<&str> = all.iter().map(|s| s.as_str()).collect();
     let mut o = String::new();
